@@ -261,14 +261,18 @@ PROPS["C17"] = dict(
 
 DKG_RULE = ("one network simulator (harness/sim): protocol in {Feldman-VSS-Qual with one dealer, Joint-Feldman}, n = 2..5 (thorough 7, a few 10), t = 1..n-1, at most t Byzantine participants (the dealer may be one). Honest participants are real library instances behind a recording processor; "
             "a Byzantine participant is a real instance whose outgoing messages pass through a generated fault grammar per (message type, receiver): honest, omitted, late (next round), duplicated, malformed (empty, bad tag, wrong size, scalar 0 / >= r, vector of wrong size, cleared flag, off-curve, on-curve outside G2, small-order component, identity A_0), "
-            "well-formed but inconsistent (share / vector of another polynomial, share+1, wrong answer value, out-of-range index), plus unsolicited broadcasts at the start of every round (complaints against any dealer, malformed complaints, answers with right or wrong value before or after the complaint, empty, unknown tag, vector again, junk on the private channel, wrong channel). "
-            "The scheduler delivers the (message, receiver) pairs of a round in a generated order (broadcasts of one sender stay ordered per receiver; reactions join the round; every pool is drained before the timeouts; timeouts and End in generated orders). ")
+            "well-formed but inconsistent (share / vector of another polynomial, share+1, wrong answer value, out-of-range index biased to n itself, two vector entries outside G2 that cancel), the vector held back behind the dealer's other round-1 broadcasts, plus unsolicited messages at the start of a round or after a generated number of deliveries "
+            "(complaints against any dealer, malformed complaints, answers with right, wrong or malformed value before or after the complaint, empty, unknown tag, vector again, junk on the private channel, wrong channel). Templates: one victim and one wildcard fault with an explicit treatment of the victim's complaint, an answer for the victim nobody asked for, "
+            "an accomplice exchanging an answer and a complaint with the dealer, groundless accusations of honest dealers. "
+            "The scheduler delivers the (message, receiver) pairs of a round in a generated order (broadcasts of one sender stay ordered per receiver and may be echoed to the sender; reactions join the round, an honest reaction may instead be delivered in the next round, within the deadline of its type; every pool is drained before the timeouts; timeouts and End in generated orders). ")
 
 PROPS["C07"] = dict(
-    technique="model-based fault-injection simulation driven by rapid (generated schedules and Byzantine fault grammar), agreement invariants",
+    technique="model-based fault-injection simulation driven by rapid (generated schedules, Byzantine fault grammar, collusion / accusation templates), agreement and key-composition invariants; libFuzzer differential on the C polynomial evaluation; native Go fuzzing of the same property in the thorough tier",
     title="DKG: honest participants agree on the verdict and on consistent keys",
     rule=DKG_RULE + ("Invariant after End at every honest participant: identical sets of disqualified dealers, identical outcome (all DKG-failure or identical group key and public key shares), private share matches public share, "
-          "(every 5th case, always in thorough) group key and all public shares on one polynomial of degree <= t by Lagrange interpolation in G2 with the oracle, and t+1 honest participants reconstruct a signature valid under the group key. "
+          "(every 5th case, always in thorough) group key and all public shares on one polynomial of degree <= t by Lagrange interpolation in G2 with the oracle, and t+1 honest participants reconstruct a signature valid under the group key; "
+          "key composition: at every honest participant whose End succeeded the group key is the sum of A_0 over exactly the dealers it did not report through Disqualify (first, round-1, valid vectors; public shares likewise in the deep cases), a reported single dealer means End fails, more than t reported dealers mean failure, and a Joint-Feldman failure has a documented cause. "
+          "The libFuzzer target POLY checks the C polynomial evaluations behind the public shares element-wise; the thorough tier adds a native-fuzz campaign over the same property. "
           "Non-trivial = a Byzantine participant performed a non-honest action and the delivery order was not FIFO; distinct by draw-record hash."),
     assumptions=BLS_ASSUME[:1] + ["the assumptions of the statement: round-synchronous delivery, reliable broadcast, at most t Byzantine participants", "Joint-Feldman: the disqualified set of a participant is read from its Disqualify callbacks; single-dealer protocol: from the End verdict"],
     jobs=[J("TestC07_Agreement", 1500, 4000, shards=16), GF("TestC07_Agreement", 150, procs=16),
@@ -276,7 +280,7 @@ PROPS["C07"] = dict(
 )
 
 PROPS["C08"] = dict(
-    technique="model-based fault-injection simulation driven by rapid (fairness invariants and converse triggers) + exhaustive delivery-order enumeration for plain VSS",
+    technique="model-based fault-injection simulation driven by rapid (fairness invariants, converse triggers, key composition) + exhaustive delivery-order enumeration for plain VSS + libFuzzer targets on vector parsing and polynomial evaluation; native Go fuzzing of the same property in the thorough tier",
     title="DKG qualification is fair: honest never blamed, bad dealing never accepted",
     rule=DKG_RULE + ("Invariants: (e) no Disqualify / FlagMisbehavior callback at an honest reporter targets an honest participant; (f) a Byzantine dealer whose vector was omitted, late or malformed (confirmed invalid by the oracle), who attracted more than t distinct complaints before the second timeout, "
           "or who left an honest complaint unanswered or answered it with a value not matching its vector, is disqualified by every honest participant; (g) plain Feldman VSS: every delivery order of (vector, share, one duplicate of each) x every kind of vector and share: End returns keys iff the first vector is valid (oracle) and the first share is well-formed and matches it, otherwise a DKG-failure error. "
@@ -293,7 +297,7 @@ PROPS["C10"] = dict(
           "payloads taken from real instances run with the same parameters (so End can succeed) or junk. Oracle 1: a reference model of the documented machine (new / running(k timeouts) / ended) predicts the error class of every call and Running(). "
           "Oracle 2 (non-interference, metamorphic): a twin instance receives only the calls the model accepts; the instance that additionally received the rejected calls must emit the same messages and callbacks and end with the same End result. Both are driven to End and re-checked after End. "
           "Non-trivial = the sequence contains a call rejected for a state or index reason while running; distinct by draw-record hash."),
-    assumptions=["Start after End and Start with a too-short seed are outside the quantifier (documentation asks for a new instance per run)"],
+    assumptions=["Start after End is outside the quantifier (documentation asks for a new instance per run); a dealer's Start with a too-short seed is a rejected call (documented invalid-inputs error) that leaves the instance new"],
     jobs=[J("TestC10_StateMachine", 4000, 50000, shards=16), GF("TestC10_StateMachine", 120, procs=16)],
 )
 
